@@ -81,7 +81,28 @@ KINDS = {
 PLAIN_KINDS = ["msg", "write", "act_ok", "act_fail", "tb", "msgobj", "serfail"]
 ALL_KINDS = PLAIN_KINDS + ["weird", "weirdmsg"]
 
-def do_log(kind, base):
+def do_log_instance(kind, base, lg):
+    """same messages, but through an explicit Logger that has its own Destinations (reports must follow it)"""
+    if kind in ("msg", "msgobj"): Message.new(message_type="app:msg", n=base).write(lg)
+    elif kind == "write": lg.write({"n": base, "raw": 1})
+    elif kind == "act_ok":
+        with start_action(lg, "app:act", n=base) as a:
+            Message.new(message_type="app:inner", n=base + 1).write(lg)
+            a.add_success_fields(n=base + 2)
+    elif kind == "act_fail":
+        try:
+            with start_action(lg, "app:act", n=base): raise RuntimeError("n=%d" % (base + 1))
+        except RuntimeError: pass
+    elif kind == "tb":
+        try: raise ValueError("n=%d" % base)
+        except ValueError: write_traceback(lg)
+    elif kind == "weird": lg.write({"n": base, "bad": BadRepr(), 7: "seven"})
+    elif kind == "weirdmsg": Message.new(message_type="app:weird", n=base, bad=BadRepr()).write(lg)
+    elif kind == "serfail": SERFAIL(n=base + 1, x=base).write(lg)
+    else: raise ValueError(kind)
+
+def do_log(kind, base, lg=None):
+    if lg is not None: return do_log_instance(kind, base, lg)
     if kind == "msg": log_message(message_type="app:msg", n=base)
     elif kind == "write": Logger().write({"n": base, "raw": 1})
     elif kind == "act_ok":
@@ -157,7 +178,10 @@ def compile_scenario(sc):
             if isinstance(b, str): script.append((b, None, None))
             else: script.append((b.get("x", ""), b["via"], comp_prog(b["p"], True)))
         dests.append({"kind": "scripted", "script": script, "tail": d.get("tail", "")})
-    return {"mode": sc.get("mode", "fresh"), "wrap": bool(sc.get("wrap")), "prog": prog, "dests": dests}
+    mode = sc.get("mode", "fresh")
+    # "instance" = a Logger with its own Destinations; nothing is logged to it before the first add (reports of
+    # re-delivered buffered messages carry no logger and would go to the process-global Destinations instead)
+    return {"mode": mode, "wrap": bool(sc.get("wrap")) and mode != "instance", "prog": prog, "dests": dests}
 
 # ------------------------------------------------------------------ reference model (sequential semantics of the statement)
 class Model(object):
@@ -234,8 +258,11 @@ class World(object):
                 self.dests.append(None); self.handles.append(FileDestination(file=f))
             else:
                 sd = ScriptedDest(self, i, d); self.dests.append(sd)
-                self.handles.append(sd if i % 2 == 0 else sd.receive)   # callable object / bound method
-        self.D = None
+                self.handles.append(sd)
+        self.D = None; self.lg = None
+    def handle(self, i):
+        h = self.handles[i]     # callable object, or a *fresh* (equal, not identical) bound method for odd positions
+        return h.receive if (isinstance(h, ScriptedDest) and i % 2) else h
     def nested(self, via, prog):
         if via == "inline": self.run_prog(prog)
         else:
@@ -244,16 +271,16 @@ class World(object):
     def run_prog(self, prog):
         for op in prog:
             try:
-                if op[0] == "log": do_log(op[1], op[2])
+                if op[0] == "log": do_log(op[1], op[2], self.lg)
                 elif op[0] == "burst":
-                    for j in range(op[1]): log_message(message_type="app:msg", n=op[2] + 10 * j)
+                    for j in range(op[1]): do_log("msg", op[2] + 10 * j, self.lg)
                 elif op[0] == "add":
-                    hs = [self.handles[i] for i in op[1]]
+                    hs = [self.handle(i) for i in op[1]]
                     if self.D is not None: self.D.add(*hs)
                     else: add_destinations(*hs)
                 elif op[0] == "remove":
-                    if self.D is not None: self.D.remove(self.handles[op[1]])
-                    else: remove_destination(self.handles[op[1]])
+                    if self.D is not None: self.D.remove(self.handle(op[1]))
+                    else: remove_destination(self.handle(op[1]))
             except HarnessTimeout: raise
             except BaseException as e:
                 self.escaped.append("%r escaped from %r" % (e, list(op[:2])))
@@ -261,13 +288,15 @@ class World(object):
         saved = Logger._destinations
         if self.c["mode"] == "fresh":
             self.D = Destinations(); Logger._destinations = self.D
+        elif self.c["mode"] == "instance":
+            self.D = Destinations(); self.lg = Logger(); self.lg._destinations = self.D
         def on_alarm(signum, frame):
             self.timed_out = True; raise HarnessTimeout()
         old_handler = signal.signal(signal.SIGALRM, on_alarm); signal.setitimer(signal.ITIMER_REAL, 15, 2)
         try:
             try:
                 if self.c["wrap"]:
-                    with start_action(action_type="app:outer", n=1) as a:
+                    with (start_action(self.lg, "app:outer", n=1) if self.lg is not None else start_action(action_type="app:outer", n=1)) as a:
                         self.run_prog(self.c["prog"]); a.add_success_fields(n=2)
                 else: self.run_prog(self.c["prog"])
             except HarnessTimeout: pass
@@ -276,8 +305,8 @@ class World(object):
             signal.setitimer(signal.ITIMER_REAL, 0); signal.signal(signal.SIGALRM, old_handler)
             self.closed = True
             Logger._destinations = saved
-            if self.c["mode"] != "fresh":
-                for h in self.handles:
+            if self.c["mode"] == "global":
+                for h in [self.handle(i) for i in range(len(self.handles))]:
                     for _ in range(4):
                         try: remove_destination(h)
                         except ValueError: break
@@ -416,7 +445,7 @@ def run_conc(sc):
     saved = Logger._destinations; world.D = Destinations(); Logger._destinations = world.D
     problems = []
     try:
-        world.D.add(*world.handles)
+        world.D.add(*[world.handle(i) for i in range(n)])
         ths = [threading.Thread(target=body, args=(t,), daemon=True) for t in (0, 1)]
         for th in ths: th.start()
         sched.ev[0].set()
@@ -527,9 +556,9 @@ def fam_masks(tier):
                 dests = [{"script": S(bits[i * slen:(i + 1) * slen], lambda i, k: CODES[(3 * i + k + sb + idx) % len(CODES)], i),
                           "tail": ("VC"[i % 2] if tails[i] else "")} for i in range(n)]
                 kinds = ["msg"] * L if idx % 4 else [PLAIN_KINDS[(idx // 4 + j) % len(PLAIN_KINDS)] for j in range(L)]
-                glob = idx % 7 == 0
+                glob = idx % 7 in (0, 3)
                 pre = [["log", "msg"]] if (idx % 5 == 0 and not glob) else []
-                yield {"family": "lifo", "mode": "global" if glob else "fresh", "wrap": idx % 11 == 0 and not glob, "dests": dests,
+                yield {"family": "lifo", "mode": ("global" if idx % 7 == 0 else "instance") if glob else "fresh", "wrap": idx % 11 == 0 and not glob, "dests": dests,
                        "prog": pre + [["add"] + list(range(n))] + [["log", k] for k in kinds]}
 
 BEHAVIOURS = {"healthy": {"script": [], "tail": ""}, "broken": {"script": [], "tail": "C"},
@@ -558,8 +587,8 @@ def fam_registration(tier, rng):
             for rep in range(2 if ln <= 4 else 1):
                 beh = [rng.choice(names) for _ in range(3)]
                 if "healthy" not in beh and rep == 0: beh[rng.randrange(3)] = "healthy"
-                glob = p[0][0] == "add" and (j + rep) % 3 == 0
-                yield {"family": "lifo", "mode": "global" if glob else "fresh", "wrap": False,
+                glob = p[0][0] == "add" and (j + rep) % 3 != 1
+                yield {"family": "lifo", "mode": ("global" if (j + rep) % 3 == 0 else "instance") if glob else "fresh", "wrap": False,
                        "dests": [BEHAVIOURS[b] for b in beh], "prog": p + ([["log", "msg"]] if j % 2 else [])}
 
 def fam_nested(tier):
@@ -580,7 +609,7 @@ def fam_nested(tier):
                                 h = {"script": [], "tail": ""}
                                 dests = [g, o] if gpos == 0 else [o, g]
                                 if idx % 3 == 0: dests.append(h)
-                                yield {"family": "lifo", "mode": "fresh", "wrap": idx % 5 == 0, "dests": dests,
+                                yield {"family": "lifo", "mode": "instance" if idx % 4 == 1 else "fresh", "wrap": idx % 5 == 0 and idx % 4 != 1, "dests": dests,
                                        "prog": [["add"] + list(range(len(dests)))] + [["log", "msg"], ["log", "msg"]]}
 
 def rand_script(rng, depth, ln):
@@ -595,13 +624,13 @@ def rand_script(rng, depth, ln):
     return out
 
 def fam_random(tier, rng):
-    count = 2500 if tier == "quick" else 70000
+    count = 5000 if tier == "quick" else 110000
     for j in range(count):
         n = rng.randint(1, 4); dests = []
         for i in range(n):
             if rng.random() < 0.12: dests.append({"kind": "file"})
             else: dests.append({"script": rand_script(rng, 1, rng.randint(0, 7)), "tail": rng.choice(["", "", "", rng.choice(CODES)])})
-        glob = rng.random() < 0.2
+        glob = rng.random() < 0.35
         prog = []; reg = []; ln = rng.randint(2, 9)
         if glob or rng.random() < 0.6:
             first = rng.sample(range(n), rng.randint(1, n)); prog.append(["add"] + first); reg += first
@@ -612,10 +641,11 @@ def fam_random(tier, rng):
             elif r < 0.3 and reg:
                 x = rng.choice(reg); reg.remove(x); prog.append(["remove", x])
             else: prog.append(["log", rng.choice(ALL_KINDS)])
-        yield {"family": "lifo", "mode": "global" if glob else "fresh", "wrap": (not glob) and rng.random() < 0.25, "dests": dests, "prog": prog}
+        gmode = rng.choice(["global", "instance"])
+        yield {"family": "lifo", "mode": gmode if glob else "fresh", "wrap": (not glob) and rng.random() < 0.25, "dests": dests, "prog": prog}
 
 def fam_conc(tier, rng):
-    count = 250 if tier == "quick" else 6000
+    count = 400 if tier == "quick" else 8000
     kinds = ["msg", "write", "act_ok", "msg"]
     for j in range(count):
         n = rng.randint(2, 3)
@@ -685,7 +715,7 @@ def main():
                   "Message.log, serialization failure, unserializable/unrepr-able fields), before-first-add buffering incl. 1003 messages, fresh "
                   "Destinations and the process-global one; re-entrant logging from inside a destination (inline and from a second thread parked "
                   "mid-delivery, depth 1); %d forced non-LIFO two-thread interleavings; registration change during delivery and odd-exception probes"
-                  % ("3-4" if q else "3-6", 3, 9 if q else 10, 250 if q else 6000)),
+                  % ("3-4" if q else "3-6", 3, 9 if q else 10, 400 if q else 8000)),
         "rule": ("exhaustive mask enumeration + exhaustive short add/remove/log programs + exhaustive nested-log position x mask + seeded random rich "
                  "programs (--seed) + token-scheduled two-thread runs; every scenario runs the real eliot code and the per-destination delivery "
                  "streams (ordinary message labels, reports with reason/exception/affected message) are compared with an independent sequential "
